@@ -12,6 +12,8 @@ use std::sync::RwLock;
 pub enum Point {
     /// Immediately before a salt is drawn from the thread-local generator.
     SaltDraw,
+    /// After the random bytes of a salt were drawn, before they are encoded.
+    SaltDrawn,
 }
 
 static HOOK: RwLock<Option<fn(Point)>> = RwLock::new(None);
